@@ -255,3 +255,82 @@ pub fn narrow_selection(sel: &Map<String, Value>, ch: &mut Choices) -> Map<Strin
     }
     out
 }
+
+/// Arbitrary selection JSON for the weak form of C06 and for C07: names from the tree with high
+/// probability, unknown names, wrong container kinds, numbers/strings as selectors, selectors
+/// deeper / longer than the claims.
+pub fn derive_arbitrary_selection(tree: &MNode, ch: &mut Choices) -> Map<String, Value> {
+    fn junk(ch: &mut Choices, depth: u32) -> Value {
+        match ch.pick(9) {
+            0 => Value::Bool(true),
+            1 => Value::Bool(false),
+            2 => Value::Null,
+            3 => Value::from(ch.next() as u64),
+            4 => Value::String(["", "x", "true", "_sd", "..."][ch.pick(5)].to_string()),
+            5 | 6 if depth < 4 => {
+                let n = ch.pick(4);
+                Value::Array((0..n).map(|_| junk(ch, depth + 1)).collect())
+            }
+            7 | 8 if depth < 4 => {
+                let n = ch.pick(3);
+                let mut o = Map::new();
+                for _ in 0..n {
+                    let k = ["a", "zz", "_sd", "...", "iss", "", "b", "0", "_sd_alg", "cnf"][ch.pick(10)];
+                    o.insert(k.to_string(), junk(ch, depth + 1));
+                }
+                Value::Object(o)
+            }
+            _ => Value::Bool(true),
+        }
+    }
+    fn arb(node: &MNode, ch: &mut Choices, depth: u32) -> Value {
+        if ch.chance(22) {
+            return junk(ch, depth);
+        }
+        match node {
+            MNode::Leaf(_) => match ch.pick(4) {
+                0 | 1 => Value::Bool(true),
+                2 => Value::Bool(false),
+                _ => junk(ch, depth),
+            },
+            MNode::Obj(ms) => {
+                if !ch.chance(75) {
+                    return Value::Bool(ch.chance(60));
+                }
+                let mut o = Map::new();
+                for m in ms {
+                    if ch.chance(80) {
+                        o.insert(m.name.clone(), arb(&m.node, ch, depth + 1));
+                    }
+                }
+                if ch.chance(25) {
+                    let k = ["zz", "_sd", "...", "", "nope"][ch.pick(5)];
+                    o.insert(k.to_string(), junk(ch, depth + 1));
+                }
+                Value::Object(o)
+            }
+            MNode::Arr(es) => {
+                if !ch.chance(75) {
+                    return Value::Bool(ch.chance(60));
+                }
+                let len = match ch.pick(4) {
+                    0 | 1 => es.len(),
+                    2 => ch.pick(es.len() + 1),
+                    _ => es.len() + 1 + ch.pick(3),
+                };
+                Value::Array((0..len).map(|i| match es.get(i) {
+                    Some(e) => arb(&e.node, ch, depth + 1),
+                    None => junk(ch, depth + 1),
+                }).collect())
+            }
+        }
+    }
+    match arb(tree, ch, 0) {
+        Value::Object(o) => o,
+        _ => {
+            let mut o = Map::new();
+            o.insert("zz".into(), junk(ch, 0));
+            o
+        }
+    }
+}
